@@ -15,7 +15,7 @@ MODEL_FILES = ["Model/AlignedStream.v", "Model/Lru.v", "Model/Vhd.v", "Model/Vdi
                "Model/Qcow2.v", "Model/Vmdk.v"]
 META = {
     "category": "proof",
-    "text": "Coq theorems: (1) the AlignedStream state machine (seek/read/peek/readoffset/tell with its alignment buffer) over "
+    "text": "BYTE LEVEL PER FORMAT (Props/C08.v §7): for every well-formed VHD (dynamic, fixed), VDI, VHDX, HDS, QCOW2 image and VMDK sparse extent, every permitted buffer size, every content of the backing files and every finite history, the stream returns the slices of the immutable guest array. Coq theorems: (1) the AlignedStream state machine (seek/read/peek/readoffset/tell with its alignment buffer) over "
             "any back end honouring a stated contract produces, for every finite history, exactly the outputs of an immutable "
             "array with a cursor; (2) every reader's _read (VHD dynamic/fixed, VDI, VHDX, HDS) honours that contract for every "
             "alignment that is a multiple of its sector size, including requests past the end; (3) lru_cache memoisation is "
